@@ -245,6 +245,13 @@ def run(rep, scratch, tier, seed, replay=None):
             n = {3: 999, 4: 1999, 5: 1000}[i]
             hdr = [b"ID", b"a"]
             recs = [[b"r%05d" % j, b"x"] for j in range(n)]
+        if i == 7:
+            # fields that agree on a long prefix (URLs, paths, free text)
+            hdr = [b"ID", b"url"]
+            recs = []
+            for j, PL in enumerate((60, 64, 200, 250, 256, 300, 1000, 5000)):
+                P = (b"http://example.org/some/long/path/segment/" * 130)[:PL]
+                recs += [[b"r%da" % j, P + b"1"], [b"r%db" % j, P + b"2"], [b"r%dc" % j, P + b"2"], [b"r%dd" % j, P]]
         if i == 6:
             hdr = [b"ID", b" lead", b"trail ", b"\tTab", b"in ner"]
             recs = [[b"r0", b" padded", b"padded ", b"\tx", b" "], [b"r1", b"  ", b"\t", b" \t y", b"a b"], [b"r2", b"padded", b" padded ", b"x", b""]]
